@@ -452,8 +452,23 @@ def _decision_guard(ctx, e, completed):
     are reads of the record's status, one after and one before the task machine call."""
     f = e.func
     fq = f.qualname
-    in_atoms = [a for q, a in e.guards if q == fq and a[0] == "in" and a[2] == completed]
-    ne_atoms = [a for q, a in e.guards if q == fq and a[0] == "!="]
+    own = [a for q, a in e.guards if q == fq]
+    alts = expand_alternatives(f, FuncGuards(ctx.prog, f), own)
+    if len(alts) > 1 or (alts and alts[0] != own):
+        # boolean locals stand for what they were assigned: every alternative has to qualify
+        verdict = None
+        for alt in alts:
+            verdict = _decision_guard_1(f, alt, completed)
+            if not verdict[0]:
+                return verdict
+        if verdict is not None:
+            return verdict
+    return _decision_guard_1(f, own, completed)
+
+
+def _decision_guard_1(f, own, completed):
+    in_atoms = [a for a in own if a[0] == "in" and a[2] == completed]
+    ne_atoms = [a for a in own if a[0] == "!="]
     if not in_atoms:
         return False, "without a 'new status in COMPLETED_STATUSES' guard"
     mc = _machine_call(f)
